@@ -127,18 +127,83 @@ theorem supply_bound (cs : CoinState) (tip : Block) (hv : ValidChain C P cs tip)
       omega
   exact aux.2
 
-/-- with the production constants regenerated from /repo: never more than the documented
-maximum of 20,999,999.8635 coin -/
-theorem supply_bound_production (cs : CoinState) (tip : Block) (hv : ValidChain C Gen.params cs tip) :
+/-- the same from any starting point: a stored block `p` whose unspent total is within the schedule (for instance the last
+checkpointed block, whose chain the node accepted by id), extended by blocks accepted by full validation above the horizon -/
+inductive ValidChainFrom : CoinState → Block → Prop where
+  | base (cs : CoinState) (p : Block) (u : Utxo) :
+      cs.blocks.get? (p.id C) = some p → cs.utxoAt.get? (p.id C) = some u →
+      totalValue u ≤ schedule P (p.height + 1) → ValidChainFrom cs p
+  | step (cs cs' : CoinState) (p b : Block) (now : Int) :
+      ValidChainFrom cs p → b.prev = p.id C → addBlock C P cs b now = .ok cs' →
+      P.maxKnownHeight < b.height → b.id C ≠ p.id C → ValidChainFrom cs' b
+
+theorem supply_bound_from (cs : CoinState) (tip : Block) (hv : ValidChainFrom C P cs tip) :
+    ∃ u, cs.utxoAt.get? (tip.id C) = some u ∧ totalValue u ≤ schedule P (tip.height + 1) := by
+  have aux : cs.blocks.get? (tip.id C) = some tip ∧
+      ∃ u, cs.utxoAt.get? (tip.id C) = some u ∧ totalValue u ≤ schedule P (tip.height + 1) := by
+    induction hv with
+    | base cs p u hb hu hle => exact ⟨hb, u, hu, hle⟩
+    | step cs cs' p b now _ hprev hadd hz _ ih =>
+      obtain ⟨hp, up, hup, hsup⟩ := ih
+      obtain ⟨h1, h2, h3⟩ := addBlock_ok C P cs cs' b now hadd
+      refine ⟨by rw [(add_ok_inv C h3).1, Map.get?_set_self], ?_⟩
+      obtain ⟨⟨pb, hpb, _, hheight, _⟩, _, _⟩ := validateBlockInState_ok C P cs b (by omega) h2
+      rw [hprev, hp] at hpb
+      cases hpb
+      obtain ⟨u, u', hu, hu', hle⟩ := conservation C P cs cs' b now hadd hz
+      rw [hprev, hup] at hu
+      cases hu
+      refine ⟨u', hu', ?_⟩
+      rw [hheight] at hle ⊢
+      simp only [schedule] at hsup ⊢
+      omega
+  exact aux.2
+
+theorem schedule_production (n : Nat) : schedule Gen.params n = C16.supply n := by
+  induction n with
+  | zero => rfl
+  | succ n ih => simp only [schedule, C16.supply, ih]
+
+/-- with the production constants regenerated from /repo: if the unspent total at some stored block (the last checkpointed one,
+say) is within the documented schedule, then after any sequence of blocks accepted by full validation above the checkpoint horizon
+it is never more than the documented maximum of 20,999,999.8635 coin.
+
+(The first version of this theorem quantified over `ValidChain`, whose every step needs a height above the horizon while the chain
+starts at height 0: with the production horizon of 163,000 no such chain has a second block — `production_validChain_only_genesis`
+— and the statement was vacuous. Below the horizon the node accepts the checkpointed chain by id without validating it, so what
+can be proved of the code is exactly this relative statement; that the checkpointed chain itself respects the schedule is a fact
+about the recorded history of the real network, part of the trusted base of C18.) -/
+theorem supply_bound_production (cs : CoinState) (tip : Block) (hv : ValidChainFrom C Gen.params cs tip) :
     ∃ u, cs.utxoAt.get? (tip.id C) = some u ∧ totalValue u ≤ 2099999986350000 := by
-  obtain ⟨u, hu, hle⟩ := supply_bound C Gen.params cs tip hv
-  have hs : ∀ n, schedule Gen.params n = C16.supply n := by
-    intro n
-    induction n with
-    | zero => rfl
-    | succ n ih => simp only [schedule, C16.supply, ih]
-  rw [hs] at hle
+  obtain ⟨u, hu, hle⟩ := supply_bound_from C Gen.params cs tip hv
+  rw [schedule_production] at hle
   exact ⟨u, hu, Nat.le_trans hle (C16.supply_le_max _)⟩
+
+/-- why `ValidChain` is the wrong quantifier for the production constants: every step needs a height above the horizon, full
+validation forces heights to grow by one from 0, so with a horizon ≥ 1 a `ValidChain` is a lone genesis block (found by the
+vacuity audit, DESIGN §9.5b) -/
+theorem validChain_only_genesis_of_positive_horizon (cs : CoinState) (tip : Block)
+    (hpos : 1 ≤ P.maxKnownHeight) (hv : ValidChain C P cs tip) :
+    tip.height = 0 ∧ tip.prev = zeros 32 ∧ addBlockNoValidation C .empty tip = .ok cs := by
+  have aux : cs.blocks.get? (tip.id C) = some tip ∧
+      tip.height = 0 ∧ tip.prev = zeros 32 ∧ addBlockNoValidation C .empty tip = .ok cs := by
+    induction hv with
+    | genesis g cs u hadd hp hh hu hle =>
+      exact ⟨by rw [(add_ok_inv C hadd).1, Map.get?_set_self], hh, hp, hadd⟩
+    | step cs cs' p b now _ hprev hadd hz _ ih =>
+      exfalso
+      obtain ⟨hp, hp0, _, _⟩ := ih
+      obtain ⟨_, h2, _⟩ := addBlock_ok C P cs cs' b now hadd
+      obtain ⟨⟨pb, hpb, _, hheight, _⟩, _, _⟩ := validateBlockInState_ok C P cs b (by omega) h2
+      rw [hprev, hp] at hpb
+      cases hpb
+      omega
+  exact aux.2
+
+theorem production_validChain_only_genesis (cs : CoinState) (tip : Block)
+    (hv : ValidChain C Gen.params cs tip) : tip.height = 0 ∧ tip.prev = zeros 32 :=
+  let h := validChain_only_genesis_of_positive_horizon C Gen.params cs tip (by decide) hv
+  ⟨h.1, h.2.1⟩
 
 /-! ## non-vacuity / spot values -/
 
